@@ -182,7 +182,9 @@ func KeyOf(f SFrame, c Cfg) Key {
 	if address {
 		k.Addr = f.Addr
 	}
-	if f.NoLines {
+	if f.NoLines || f.NoFunc {
+		// no line information, or a line without a function: the entry is the binary (and the
+		// address, at address granularity); a line number without a function is not shown
 		k.Obj = f.File0
 		return k
 	}
